@@ -120,6 +120,10 @@ func (pr *ProtoArray) CanonicalChain(anchorRoot Root, anchorSlot Slot) ([]Extend
 			return nil, err
 		}
 		chain = append(chain, ExtendedNodeRef{NodeRef: node.Ref, ParentRoot: node.ParentRoot})
+		if node.Ref.Root == anchorRoot && node.Ref.Slot == anchorSlot {
+			// the anchor is the last node of the chain
+			break
+		}
 		index = node.TransitionParent
 	}
 	return chain, nil
